@@ -10,6 +10,7 @@ import (
 	"fmt"
 	"math/rand"
 	"net/netip"
+	"strings"
 
 	vx "github.com/megaease/easegress/pkg/verifx"
 )
@@ -319,11 +320,32 @@ func rgReq(r *rand.Rand, o rgOpts, paths []string, clients []vx.M) vx.M {
 // clients are only unambiguous through RemoteAddr.
 func rgVia(r *rand.Rand, q vx.M) vx.M {
 	q["via"] = rgPick(r, []string{"remote", "remote", "xff", "xri"})
-	if a, err := netip.ParseAddr(rhAddrString(q["ip"])); err != nil || a.IsPrivate() || a.IsLoopback() ||
-		a.IsLinkLocalUnicast() || a.IsUnspecified() || a.Is4In6() {
+	a, err := netip.ParseAddr(rhAddrString(q["ip"]))
+	a = a.Unmap()
+	if err != nil || a.IsPrivate() || a.IsLoopback() || a.IsLinkLocalUnicast() || a.IsUnspecified() {
 		q["via"] = "remote"
 	}
 	return q
+}
+
+// rgNotate: another spelling of the same client address - an IPv4 address in IPv4-mapped IPv6
+// notation (::ffff:a.b.c.d denotes the IPv4 host a.b.c.d), an IPv6 address fully expanded or in
+// upper case. The abstract address {fam, bits} is unchanged.
+func rgNotate(r *rand.Rand, c vx.M) vx.M {
+	a, err := netip.ParseAddr(vx.Str(c["txt"]))
+	if err != nil || r.Intn(4) != 0 {
+		return c
+	}
+	out := vx.M{"fam": c["fam"], "bits": c["bits"]}
+	switch {
+	case a.Is4():
+		out["txt"] = "::ffff:" + a.String()
+	case r.Intn(2) == 0:
+		out["txt"] = a.StringExpanded()
+	default:
+		out["txt"] = strings.ToUpper(a.String())
+	}
+	return out
 }
 
 // clients: addresses near the configured nets (inside, just outside) and unrelated ones
@@ -348,9 +370,9 @@ func rgClients(r *rand.Rand, cfg vx.M, n int) []vx.M {
 	}
 	for len(out) < n {
 		if len(nets) > 0 && r.Intn(4) != 0 {
-			out = append(out, rgAddrAround(r, nets[r.Intn(len(nets))]))
+			out = append(out, rgNotate(r, rgAddrAround(r, nets[r.Intn(len(nets))])))
 		} else {
-			out = append(out, rgAddr(r))
+			out = append(out, rgNotate(r, rgAddr(r)))
 		}
 	}
 	return out
